@@ -67,7 +67,7 @@ type Batch struct {
 	ID       int
 	W        *World            // combined world: all tokens of all invocations, shared context
 	Invs     []string          // token names of the invocations, in execute order (duplicates allowed)
-	Handlers map[string]string // ability -> "ok" | "okfx" | "fail"; abilities without entry have no handler
+	Handlers map[string]string // ability -> "ok" | "okfx" | "okjoin" | "okfxjoin" | "okfxinv" | "fail" | "badout"; abilities without entry have no handler
 	Perturb  int64             // seed of the schedule perturbation (0: none)
 	Label    string
 }
@@ -83,6 +83,8 @@ type rcptObs struct {
 	Inv     string // invocation link
 	Found   bool
 	FxBad   string // non-empty: the receipt's effects are not the ones the handler returned
+	Forks   []string // fork links written in the receipt's outcome, in order (read when Decoded)
+	Join    string   // join link written in the receipt's outcome ("": none)
 	Class   string // "ok" | error name | "?" when undecodable
 	Ran     string
 	Issuer  string
@@ -156,12 +158,76 @@ func sharedProvider(can, kind string) server.ServiceMethod[ipld.Builder] {
 			return ok.Unit{}, fx.NewEffects(fx.WithJoin(fx.FromLink(fakeLink(778)))), nil
 		case "okfxjoin":
 			return ok.Unit{}, fx.NewEffects(fx.WithFork(fx.FromLink(fakeLink(777)), fx.FromLink(fakeLink(779))), fx.WithJoin(fx.FromLink(fakeLink(778)))), nil
+		case "okfxinv":
+			// effects given as embedded INVOCATIONS (their blocks travel with the receipt), next to a plain link
+			return ok.Unit{}, fx.NewEffects(fx.WithFork(fx.FromInvocation(fxInvocation(1)), fx.FromLink(fakeLink(777))), fx.WithJoin(fx.FromInvocation(fxInvocation(2)))), nil
 		}
 		return ok.Unit{}, nil, nil
 	}
 	p := server.Provide[Cav, ipld.Builder](desc, h)
 	providers[key] = p
 	return p
+}
+
+// fxInvocation: the invocations the "okfxinv" handler returns as effects (issued once per process)
+var fxInvMu sync.Mutex
+var fxInvs = map[int]invocation.Invocation{}
+
+func fxInvocation(i int) invocation.Invocation {
+	fxInvMu.Lock()
+	defer fxInvMu.Unlock()
+	if v, ok := fxInvs[i]; ok {
+		return v
+	}
+	c := newCast(int64(424242 + i))
+	who, svc := c.Ed("fx-issuer"), c.Ed("fx-service")
+	v, err := invocation.Invoke(who.Signer, svc.DID, ucan.NewCapability[ucan.CaveatBuilder]("fx/task", who.DID.String(), Cav{}),
+		delegation.WithNoExpiration(), delegation.WithNonce(fmt.Sprintf("fx-%d", i)))
+	if err != nil {
+		panic(err)
+	}
+	fxInvs[i] = v
+	return v
+}
+
+// kindEffects: the effects the handler of the given kind returns with its value (sharedProvider), as links:
+// the fork links in order and the join (nil: none). An effect given as an invocation is named by its link.
+func kindEffects(kind string) (forks []ipld.Link, join ipld.Link) {
+	switch strings.TrimSuffix(kind, "+didwith") {
+	case "okfx":
+		return []ipld.Link{fakeLink(777)}, nil
+	case "okjoin":
+		return nil, fakeLink(778)
+	case "okfxjoin":
+		return []ipld.Link{fakeLink(777), fakeLink(779)}, fakeLink(778)
+	case "okfxinv":
+		return []ipld.Link{fxInvocation(1).Link(), fakeLink(777)}, fxInvocation(2).Link()
+	}
+	return nil, nil
+}
+
+// lidStr: the number of a link given by its string (interned like lid)
+func (w *World) lidStr(s string) int {
+	if id, ok := w.linkID[s]; ok {
+		return id
+	}
+	id := len(w.links) + 1
+	w.linkID[s] = id
+	w.links = append(w.links, s)
+	return id
+}
+
+// coqEffects renders (fork links in order, join) as a Gallina `effects`
+func (w *World) coqEffects(forks []string, join string) string {
+	var fs []string
+	for _, f := range forks {
+		fs = append(fs, fmt.Sprint(w.lidStr(f)))
+	}
+	j := "None"
+	if join != "" {
+		j = fmt.Sprintf("Some %d", w.lidStr(join))
+	}
+	return fmt.Sprintf("([%s], %s)", strings.Join(fs, "; "), j)
 }
 
 // newServer builds a real server for the batch with recording handlers.
@@ -511,25 +577,34 @@ func (b *Batch) runOn(ch transport.Channel, names []string, obs *BatchObs) {
 			ro.Rcpt = rl.String()
 			if bb, ok := blocks[rl.String()]; ok {
 				ro.Class, ro.Ran, ro.Issuer, ro.Decoded = decodeReceipt(bb)
+				// the effects written in the receipt, whatever its class (compared with the model's rc_fx by Check_Server.v)
+				ro.Forks, ro.Join = receiptEffects(bb)
 				if ro.Class == "ok" {
-					// the effects the handler returned are the effects of the receipt (forks in order, the join)
+					// DIRECT oracle: the effects the handler returned are the effects of the receipt (forks in order, the join)
 					if caps := b.W.built[n].Dlg.Capabilities(); len(caps) == 1 {
 						kind := strings.TrimSuffix(b.Handlers[caps[0].Can()], "+didwith")
 						var wantForks []string
 						wantJoin := ""
-						switch kind {
-						case "okfx":
-							wantForks = []string{fakeLink(777).String()}
-						case "okjoin":
-							wantJoin = fakeLink(778).String()
-						case "okfxjoin":
-							wantForks, wantJoin = []string{fakeLink(777).String(), fakeLink(779).String()}, fakeLink(778).String()
+						wf, wj := kindEffects(kind)
+						for _, l := range wf {
+							wantForks = append(wantForks, l.String())
 						}
-						forks, join := receiptEffects(bb)
-						if strings.Join(forks, ",") != strings.Join(wantForks, ",") || join != wantJoin {
-							ro.FxBad = fmt.Sprintf("handler kind %s: receipt carries forks %v join %q, the handler returned forks %v join %q", kind, forks, join, wantForks, wantJoin)
+						if wj != nil {
+							wantJoin = wj.String()
+						}
+						if strings.Join(ro.Forks, ",") != strings.Join(wantForks, ",") || ro.Join != wantJoin {
+							ro.FxBad = fmt.Sprintf("handler kind %s: receipt carries forks %v join %q, the handler returned forks %v join %q", kind, ro.Forks, ro.Join, wantForks, wantJoin)
+						} else if kind == "okfxinv" {
+							// effects given as invocations: their root blocks travel with the receipt
+							for _, i := range []int{1, 2} {
+								if _, ok := blocks[fxInvocation(i).Link().String()]; !ok {
+									ro.FxBad = fmt.Sprintf("handler kind %s: the block of the invocation given as an effect (%s) is not in the response", kind, fxInvocation(i).Link())
+								}
+							}
 						}
 					}
+				} else if ro.Decoded && (len(ro.Forks) > 0 || ro.Join != "") {
+					ro.FxBad = fmt.Sprintf("a receipt of class %s carries effects: forks %v join %q", ro.Class, ro.Forks, ro.Join)
 				}
 			} else {
 				ro.Class = "missing-block"
@@ -595,7 +670,7 @@ func (b *Batch) CoqFor(names []string, obs *BatchObs) string {
 	}
 	world := w.Coq(wobs)
 	w.Inv = saveInv
-	var hs []string
+	var hs, hfx []string
 	cans := make([]string, 0, len(b.Handlers))
 	for c := range b.Handlers {
 		cans = append(cans, c)
@@ -607,19 +682,34 @@ func (b *Batch) CoqFor(names []string, obs *BatchObs) string {
 			k = 1
 		}
 		hs = append(hs, fmt.Sprintf("(%s, %d)", hxs(c), k))
+		// what the model is told the handler returns with its value: the fork links in order and the join
+		if forks, join := kindEffects(b.Handlers[c]); len(forks) > 0 || join != nil {
+			var fs []string
+			for _, l := range forks {
+				fs = append(fs, l.String())
+			}
+			j := ""
+			if join != nil {
+				j = join.String()
+			}
+			hfx = append(hfx, fmt.Sprintf("(%s, %s)", hxs(c), w.coqEffects(fs, j)))
+		}
 	}
-	var rc []string
+	var rc, ofx []string
 	for _, r := range obs.Rcpts {
 		rc = append(rc, fmt.Sprintf("(%d, %s, %s, %d, %s)", w.linkID[r.Inv], coqBool(r.Found), classCoq(r.Class), w.linkID[r.Ran], hxs(r.Issuer)))
+		if r.Found && r.Decoded {
+			ofx = append(ofx, fmt.Sprintf("(%d, %s)", w.linkID[r.Inv], w.coqEffects(r.Forks, r.Join)))
+		}
 	}
 	var calls []string
 	for _, c := range obs.Calls {
 		calls = append(calls, fmt.Sprintf("(%s, %s)", hxs(c.HandlerOf), w.coqCap(c.Can, c.With, c.Nb)))
 	}
 	serveBytesHook(b, names) // servebytes.go: the same request once more, its BODY recorded (coq/Check_ServerBytes.v)
-	return fmt.Sprintf("{| bc_world := %s;\n bc_vis := [%s];\n bc_exec := [%s];\n bc_handlers := [%s];\n bc_server := %s;\n ob_exec_err := %s;\n ob_rcpts := [%s];\n ob_calls := [%s];\n ob_nreceipts := %d |}",
-		world, strings.Join(vis, "; "), strings.Join(exec, "; "), strings.Join(hs, "; "), coqDID(w.Ctx.Authority.DID),
-		coqBool(obs.ExecErr != ""), strings.Join(rc, ";\n   "), strings.Join(calls, ";\n   "), obs.NReceipts)
+	return fmt.Sprintf("{| bc_world := %s;\n bc_vis := [%s];\n bc_exec := [%s];\n bc_handlers := [%s];\n bc_fx := [%s];\n bc_server := %s;\n ob_exec_err := %s;\n ob_rcpts := [%s];\n ob_fx := [%s];\n ob_calls := [%s];\n ob_nreceipts := %d |}",
+		world, strings.Join(vis, "; "), strings.Join(exec, "; "), strings.Join(hs, "; "), strings.Join(hfx, "; "), coqDID(w.Ctx.Authority.DID),
+		coqBool(obs.ExecErr != ""), strings.Join(rc, ";\n   "), strings.Join(ofx, ";\n   "), strings.Join(calls, ";\n   "), obs.NReceipts)
 }
 
 func writeBatchCases(dir, prefix string, cases []string, shards int) error {
@@ -671,7 +761,10 @@ func randomBatch(r *rand.Rand, id int, seed int64, maxInv int, dup bool) *Batch 
 		case 1:
 			b.Handlers[a] = "fail"
 		case 2:
-			b.Handlers[a] = []string{"okfx", "okjoin", "okfxjoin"}[(id+len(a))%3]
+			b.Handlers[a] = []string{"okfx", "okjoin", "okfxjoin", "okfxinv"}[(id+len(a))%4]
+		case 4:
+			// a second rotation, so that a batch often has handlers returning different shapes of effects
+			b.Handlers[a] = []string{"okjoin", "okfxinv", "ok", "okfxjoin", "okfx"}[(id/2+len(a))%5]
 		default:
 			b.Handlers[a] = "ok"
 		}
